@@ -380,6 +380,11 @@ def probe_cases():
     cases.append({'kind': 'expr', 'dom': 't', 'tree': cz, 'points': ['-2/1', '-1/16', '0/1', '1/16', '3/1'], 'mode': 'both', 'tag': 'probe:causal'})
     cases.append({'kind': 'expr', 'dom': 't', 'tree': ['div', ['c', '1'], ['add', ['mul', ['var'], ['var']], ['c', '1']]],
                   'points': ['-2/1', '-1/16', '0/1', '1/16', '3/1'], 'mode': 'both', 'causal': True, 'tag': 'probe:causal'})
+    # not causal: the step starts before t = 0 (guards CausalChecker's argument test)
+    cases.append({'kind': 'expr', 'dom': 't', 'tree': ['mul', ['add', ['var'], ['c', '2']], ['f', 'Heaviside', ['add', ['var'], ['c', '1']]]],
+                  'points': ['-2/1', '-1/2', '-1/16', '0/1', '3/1'], 'mode': 'both', 'tag': 'probe:causal'})
+    cases.append({'kind': 'expr', 'dom': 't', 'tree': ['mul', ['var'], ['f', 'Heaviside', ['sub', ['c', '1'], ['var']]]],
+                  'points': ['-2/1', '-1/2', '0/1', '1/2', '3/1'], 'mode': 'scalar', 'tag': 'probe:causal'})
     return cases
 
 
@@ -848,6 +853,9 @@ def run(tier='quick', replay=None):
                            'exact class: rational points and rational coefficients; discontinuities of Heaviside/sign/DiracDelta (0), rect '
                            '(+-1/2), trap with alpha = 0 (+-1/2) are excluded as the property says',
                            'NOT covered (partial): floating-point rounding, convergence as h -> 0 for arbitrary circuits, Bessel functions']
+        import time as _t
+        T0 = _t.time()
+        phase = {}
         texts = {}
         # ---- 1. translate ---------------------------------------------------------
         nf = em = ns = None
@@ -914,9 +922,10 @@ def run(tier='quick', replay=None):
             res.extra['outside_model'] = {'numeric definitions present but not modelled': TF.NUM_OPAQUE,
                                           'lambdify table': nf.table, 'config': {k: str(v) for k, v in nf.cfg.items()}}
 
+        phase['translate+prove'] = round(_t.time() - T0, 1)
         # ---- 3. run the real code ---------------------------------------------------
         nprobe = probe_cases()
-        ngen = 150 if tier == 'quick' else 1200
+        ngen = 120 if tier == 'quick' else 1200
         exact = expand_modes(nprobe + gen_exact_cases(rng, ngen))
         tcases = text_cases(rng, tier)
         scases = sim_cases(rng, tier)
@@ -935,6 +944,7 @@ def run(tier='quick', replay=None):
                 exact = expand_modes(exact)
         allc = scases + rcases + exact + tcases + stcases + misc
         allr = core.run_impl('impl_numeval.py', allc, timeout=1500)
+        phase['lcapy'] = round(_t.time() - T0 - phase['translate+prove'], 1)
         o = 0
         sres = allr[o:o + len(scases)]; o += len(scases)
         rres = allr[o:o + len(rcases)]; o += len(rcases)
@@ -1025,11 +1035,13 @@ def run(tier='quick', replay=None):
                     items.append((nid, 'sym', 'oqeq (eval sym_tab e_%d %s) %s' % (ci, qcl(x), obs)))
                     meta[nid] = (ci, j, 'sym')
                     nid += 1
-                if on_pw or zero_clause:
+                if on_pw or zero_clause or disc:
                     # on the boundary of a condition / for an identically-zero clause evaluate goes through the
-                    # limit()/simplify() fall-backs, which are outside the model
+                    # limit()/simplify() fall-backs, and at a discontinuity the value depends on how doit()/lambdify
+                    # rewrite the function (e.g. sign(z) -> z/|z| for the non-real symbol z): outside the model, and
+                    # excluded by the property
                     vec_ok = False
-                if not vec and no[0] != 'skip' and em is not None and not on_pw and not (zero_clause and so[0] == 'none'):
+                if not vec and no[0] != 'skip' and em is not None and not on_pw and not disc and not (zero_clause and so[0] == 'none'):
                     obs = 'ORaise' if no[0] == 'none' else '(OScalar %s)' % qcl(no[1])
                     items.append((nid, 'num', 'outeq (nrun %s e_%d (Scalar %s) None) %s' % ('true' if cflag else 'false', ci, qcl(x), obs)))
                     meta[nid] = (ci, j, 'num')
@@ -1275,7 +1287,14 @@ def run(tier='quick', replay=None):
         seen = {}
         for d in cex:
             seen.setdefault(d['key'], d)
+        percls = {}
         for k, d in seen.items():
+            # at most three replay files per class of hashed (unattributed) keys
+            if re.search(r':[0-9a-f]{8}$', k):
+                pc = k.rsplit(':', 1)[0]
+                percls[pc] = percls.get(pc, 0) + 1
+                if percls[pc] > 3:
+                    continue
             d = dict(d)
             d['replay'] = {'case': d['case'], 'point': d.get('point')}
             violations.append(d)
@@ -1295,11 +1314,13 @@ def run(tier='quick', replay=None):
             if name.startswith(('translate_', 'definitions_', 'gate', 'correspondence_eval')):
                 return bool(new_keys)
             return False
-        for name, f_, msg in res.failed_obl:
+        for name, f_, msg in ([] if replay else res.failed_obl):
             if explained(name, f_):
                 continue
             violations.append({'key': 'obligation:' + name, 'what': 'Coq obligation %s in %s no longer checks' % (name, f_),
                                'theorem': name, 'file': f_, 'statement': stmts.get(name), 'message': msg, 'found_input': False})
+        phase['total'] = round(_t.time() - T0, 1)
+        res.extra['phase_seconds'] = phase
         res.extra['disagreement_samples'] = res.disagreements[:5]
         dk = set()
         for d in res.disagreements:
